@@ -7,7 +7,7 @@ import parserprop
 import propcheck
 
 PRE = [">", "> ", "- ", "1. ", "  ", "", "", ">\t", "   > ", "* ", "10) "]
-LEAF = ["a", "", " ", "# h", "---", "    c", "```", "~~~", "[r]: /u", "[r]: /u\n'multi\nline'", "a|b\n-|-\nc|d", "<div>", "x\n===", "\\", "- ", "1.", ">"]
+LEAF = ["a", "", " ", "# h", "---", "    c", "```", "~~~", "[r]: /u", "[r]: /u\n'multi\nline'", "[r]: /u 't&#10;u'", "[r]: /u \"x&NewLine;y&#xA;z\"", "[r]: /u \"one\\\ntwo\"", "[r]:\n/u\n(t)", "a|b\n-|-\nc|d", "<div>", "x\n===", "\\", "- ", "1.", ">"]
 
 
 def map_doc(rng):
